@@ -32,14 +32,18 @@ package gripql
 
 //@ func (*Vertex).Validate
 //@   property C16
+//@   option prelude=kv
 //@   pure
+//@   function det: (result == nil) <==> vertexValid(vertex)
 //@   requires nonnil: vertex != nil
 //@   ensures nonblank: result == nil ==> vertex.Gid != "" && vertex.Label != ""
 //@   ensures faithful: result == nil ==> nozero(vertex.Gid) && nozero(vertex.Label)
 
 //@ func (*Edge).Validate
 //@   property C16
+//@   option prelude=kv
 //@   pure
+//@   function det: (result == nil) <==> edgeValid(edge)
 //@   requires nonnil: edge != nil
 //@   ensures nonblank: result == nil ==> edge.Gid != "" && edge.Label != "" && edge.From != "" && edge.To != ""
 //@   ensures faithful: result == nil ==> nozero(edge.Gid) && nozero(edge.Label) && nozero(edge.From) && nozero(edge.To)
